@@ -357,7 +357,10 @@ def generate(rng, seed, size):
                     ("unit", [], [], ['#[strum(serialize = "blue", serialize = "navy-blue", to_string = "blue")]'], "blue"),
                     ("tuple", ["u8"], [], ['#[strum(serialize = "a-much-longer-spelling")]', '#[strum(to_string = "short")]'], "short"),
                     ("named", ["u8"], ["n1"], ['#[strum(serialize = "same", to_string = "same", serialize = "s")]'], "same"),
-                    ("unit", [], [], ['#[strum(to_string = "ts", serialize = "ts", serialize = "ts-longer")]'], "ts")]:
+                    ("unit", [], [], ['#[strum(to_string = "ts", serialize = "ts", serialize = "ts-longer")]'], "ts"),
+                    # the longest literal is the longest in BYTES AS WRITTEN: doubled braces count twice (a fixed name is never unescaped)
+                    ("unit", [], [], ['#[strum(serialize = "{{literal}}", serialize = "UPPER_CASE")]'], "{{literal}}"),
+                    ("tuple", ["u8"], [], ['#[strum(serialize = "nine_char")]', '#[strum(serialize = "a{{b}}c{{d")]'], "a{{b}}c{{d")]:
                 variants.append(dict(ident="B%d" % len(variants), kind=kind, disabled=False, attrs=attrs, fixed=canon, literal=None,
                                      tys=tys, fnames=fnames, ref=None))
         if pair_enum is not None:
